@@ -62,7 +62,10 @@ BadTexts == {
   <<58,58,58,47,54,52>>,                        \* :::/64
   <<49,46,50,46,51,46,52,47,50,52,47,50>>,      \* 1.2.3.4/24/2
   <<103,58,58,47,49,54>>,                       \* g::/16
-  <<49,48,46,48,46,48,46,48,47,56,32,120>>      \* "10.0.0.0/8 x"
+  <<49,48,46,48,46,48,46,48,47,56,32,120>>,     \* "10.0.0.0/8 x"
+  \* white space around a network (a quoted scalar with a blank, the line feed of a block scalar, a tab)
+  <<32,49,48,46,48,46,48,46,48,47,56>>, <<49,48,46,48,46,48,46,48,47,56,32>>, <<49,48,46,48,46,48,46,48,47,56,10>>,
+  <<9,49,48,46,48,46,48,46,48,47,56>>, <<32,58,58,49,47,49,50,56,32>>, <<49,48,46,48,46,48,46,48,32,47,56>>
 }
 BadCases == {[kind |-> "bad", net |-> <<>>, p |-> 0, text |-> t] : t \in BadTexts}
 
